@@ -84,6 +84,7 @@ struct PipeWorld : World {
 			p.set("layer", 1);
 			static const int ccaps[] = {1, 2, 3, 7, 16, 64, 255, 4096, 65536};
 			p.set("chancap", r.pick(ccaps));
+			p.set("strict", r.chance(1, 2));      // reader follows the event-loop protocol (dispatch on poll, repeat on Retry) instead of calling dispatch unasked
 			bool iof = r.chance(1, 2);
 			for (Op &op : p.ops) {
 				if (op.kind == OP_RPEEK) { op.kind = OP_RPOLL; op.a = r.chance(1, 2) ? 0 : r.range(1, 5000); }
@@ -542,7 +543,8 @@ struct PipeWorld : World {
 		int ch = simio::new_chan(chancap);
 		int wfd = simio::new_fd(-1, ch, O_WRONLY | O_NONBLOCK);
 		int rfd = simio::new_fd(ch, -1, O_RDONLY | O_NONBLOCK);
-		log.ev("pipe S framing=%s msgs=%zu chancap=%zu", ref::framing_name(R.framing), R.msgs.size(), chancap);
+		poll_pending = false; strict_reader = p.get("strict") != 0; if (strict_reader) st.hit("probe:strict_reader");
+		log.ev("pipe S framing=%s msgs=%zu chancap=%zu%s", ref::framing_name(R.framing), R.msgs.size(), chancap, strict_reader ? " strict reader" : "");
 		st.hit(std::string("framing:") + ref::framing_name(R.framing));
 		st.hit("layer:S");
 		{
@@ -636,12 +638,14 @@ struct PipeWorld : World {
 			       rs._rd.len, rs._rd.max, rs._rd.off, ds.curr, ds.data.pos, ds.data.len, ds.data.msg, (long long) simio::S.now_ms);
 			if (ds.curr > rs._rd.len || ds.data.pos + ds.data.len > ds.curr)
 				fail("decode-state", "after poll: curr=%zu pos=%zu len=%zu exceed queue len %zu", ds.curr, ds.data.pos, ds.data.len, rs._rd.len);
+			if (r > 0) poll_pending = true;
 			abstract(OP_RPOLL, (fault ? 8 : 0) + (r < 0 ? 0 : 1));
 			return r;
 		};
 		auto r_dispatch = [&]() -> int {
 			int before = rx.calls;
 			int r;
+			poll_pending = false;
 			{ Sut s; SUT_GUARD_ABORT(r = mpt_stream_dispatch(&rs, on_message, &rx)); }
 			check_pending();
 			check_queue(rs._rd, "stream read");
@@ -802,7 +806,17 @@ struct PipeWorld : World {
 		}
 		log.ev("END completed=%zu received=%zu", R.completed.size(), R.received);
 	}
+	bool strict_reader = false, poll_pending = false;      // poll_pending: a poll reported input that no dispatch has looked at yet
 	template <class P, class D> void drain_reader(P &r_poll, D &r_dispatch) {
+		if (strict_reader) {
+			// the protocol of an event loop: dispatch only when poll reports something, repeat only while dispatch asks for it (Retry flag)
+			for (int i = 0; i < 256; ++i) {
+				int pr = r_poll(0, 0, 0, 0);
+				if (pr > 0 || poll_pending) { int d = r_dispatch(), more = 0; while (d >= 0 && (d & 0x10000) && ++more < 256) d = r_dispatch(); }
+				if (pr <= 0 && !simio_readable()) break;
+			}
+			return;
+		}
 		for (int i = 0; i < 64; ++i) {
 			int pr = r_poll(0, 0, 0, 0);
 			int d = r_dispatch();
